@@ -30,15 +30,16 @@ a pure injection callback folded into `sem`, C16), every `merge` (m = 2, 4: copy
 * (7'') `cycle_array_form` — the driver's array form = the model;
 * (8) `cycle_on_memory`, (8') `cycle_end_to_end` — the loop ON MEMORY (`s_to_c` writes rows `c_locs[ppi_offset+p]`, real op rows on
   memory, `c_to_s` reads rows `c_locs[ppo_offset+p]`; any allocator, `c_reuse`, `strip_forks`) = the signal-level loop, under the
-  accepted map certificate (C08) and the decidable table conditions `stateOutsB`, `zeroCapB`;
+  accepted map certificate (C08) and the decidable table condition `zeroCapB`;
 * (9) `cycle_lanes` — lane k of the bit-parallel loop = the one-lane loop on lane k, any batch size, any k;
 * (10) `cycle_strip_irrelevant` — `s` after `cycle(k)` does not depend on `strip_forks` (hypotheses `forksOKB`, `capDriversB`).
 CORRESPONDENCE (harness/c01.py `cycle_tie`, every generated sequential case, m = 2, 4, 8, {strip_forks} x {c_reuse}, both
 `c_prop` code paths, k = 0..5, random `s[0]`, `s[1]` in all planes, all lanes): `pippi/poppo/ppio_s_locs` and
 `pippi/poppo_c_locs` of the real `LogicSim` = the model's tables; `s[0]`, `s[1]` after the real `cycle(k)` = `cycleKA k`;
-certificates `stateOutsB`, `zeroCapB` (real `c_locs`), `capDriversB`, `forksOKB`, `wfB`, `orderOKB` (real order) per case.
-Still ORACLE / per-instance only: that the real map passes the certificate (C08, per instance); circuits with a state element
-without output pin list are outside (8) (`s_to_c` then writes row -1 = the last row; covered by correspondence only);
+certificates `zeroCapB` (real `c_locs`), `capDriversB`, `forksOKB`, `wfB`, `orderOKB` (real order) per case.
+Still ORACLE / per-instance only: that the real map passes the certificate (C08, per instance);
+(a state element without output pin list has no (P)PI slot: `pippi_s_locs` skips it since fix 7a998c8 — before, `s_to_c` stored
+through `c_locs = -1` into the last memory row; the model follows the repaired table, `Cycle.ppiUsedS`, so (8) needs no side condition on it);
 the bit-plane packing of `s` is outside the model (one value per lane and position = the first mdim planes; the planes
 >= mdim that `s_ppo_to_ppi` copies along and the plane-1 copy `c_to_s` makes for m = 2 are neither modelled nor compared). -/
 namespace KV.C01
@@ -313,14 +314,13 @@ open KV.Cycle in
 /-- (8) **`cycle(k)` on memory = `cycle(k)` on signals.** `Cycle.cycleKM` (Proofs/CycleMem.lean) is the loop with `s_to_c` writing the
     rows `c_locs[ppi_offset + p]`, the real op rows running on memory (one row per signal, any allocator, with or without
     `c_reuse` / `strip_forks`), `c_to_s` reading the rows `c_locs[ppo_offset + p]`. If the real tables pass the map certificate
-    (C08, evaluated on every generated case), every flip-flop / latch has an output pin list (`stateOutsB`: then every row
-    `s_to_c` writes is allocated; otherwise NumPy's index -1 addresses the last row) and the (P)PO slot of a state element with
-    open data pin is the row of the constant slot (`zeroCapB`, the D9 repair read off the table), then for every k, every
+    (C08, evaluated on every generated case) and the (P)PO slot of a state element with open data pin is the row of the
+    constant slot (`zeroCapB`, the D9 repair read off the table), then for every k, every
     initial memory `m0` and every signal environment `env0` that agrees with it on the constant slot, the `s` array after k
     cycles on memory is the `s` array of the signal-level model — to which (6), (7) apply. -/
 theorem cycle_on_memory {α} [Inhabited α] (tbl : List PrefixRow) (p : MapIn) (order : List Nat)
     (hops : p.ops = genOps tbl p.net order p.strip) (hc : p.check = none) (hpos : 0 < p.capsMin)
-    (hso : stateOutsB p.net = true) (hzc : zeroCapB p = true)
+    (hzc : zeroCapB p = true)
     (f : Nat → List α → α) (merge : α → α → α) (d : α) (k : Nat) (m0 : Int → α) (env0 : Nat → α) (s : S α)
     (hz : m0 (p.loc p.ix.zero) = env0 p.ix.zero) :
     (cycleKM p f (tabsOf p.net p.strip) merge d k ⟨m0, s⟩).s =
@@ -328,7 +328,7 @@ theorem cycle_on_memory {α} [Inhabited α] (tbl : List PrefixRow) (p : MapIn) (
   have hmap : p.ops.map (MapSound.sigOp p) = sigOps tbl p.net order p.strip := by
     rw [hops]; rfl
   rw [← hmap]
-  exact cycleKM_eq p hc hpos hso hzc f merge d k m0 env0 s hz
+  exact cycleKM_eq p hc hpos hzc f merge d k m0 env0 s hz
 
 open KV.Cycle in
 /-- (8') **end to end, sequential**: (7) for the loop ON MEMORY — for every well-formed netlist, topological order, accepted
@@ -337,7 +337,7 @@ open KV.Cycle in
 theorem cycle_end_to_end {α} [Inhabited α] (tbl : List PrefixRow) (p : MapIn) (order : List Nat)
     (hwf : p.net.wfB = true) (ho : orderOKB p.net order = true) (hs : p.strip = false)
     (hops : p.ops = genOps tbl p.net order false) (hc : p.check = none) (hpos : 0 < p.capsMin)
-    (hso : stateOutsB p.net = true) (hzc : zeroCapB p = true)
+    (hzc : zeroCapB p = true)
     (f : Nat → List α → α) (merge : α → α → α) (d : α) (k : Nat) (m0 : Int → α) (env0 : Nat → α) (s : S α)
     (hz : m0 (p.loc p.ix.zero) = env0 p.ix.zero)
     (h0 : s.s0.length = p.net.sNodes.length) (h1 : s.s1.length = p.net.sNodes.length) :
@@ -349,7 +349,7 @@ theorem cycle_end_to_end {α} [Inhabited α] (tbl : List PrefixRow) (p : MapIn) 
     (∀ j, k = j + 1 → r.s.s1 = captureRow p.net false
         (solOf (fun op => f op.code) ops (tabsOf p.net false) d env0 (iter N j s.s0)) s.s1) := by
   intro ops N r
-  have hm := cycle_on_memory tbl p order (by rw [hs]; exact hops) hc hpos hso hzc f merge d k m0 env0 s hz
+  have hm := cycle_on_memory tbl p order (by rw [hs]; exact hops) hc hpos hzc f merge d k m0 env0 s hz
   rw [hs] at hm
   have hi := cycle_iter tbl p.net order hwf ho (fun op => f op.code) merge d ⟨env0, s⟩ h0 h1 k
   show (cycleKM p f (tabsOf p.net false) merge d k ⟨m0, s⟩).s.s0 = _ ∧ _
@@ -389,6 +389,17 @@ example : demoOpen.wfB = true ∧ orderOKB demoOpen [0, 1, 2] = true ∧ demoOpe
     (demoOpenRun 1).s1 = [true, false] ∧ (demoOpenRun 1).s0 = [false, false] ∧ (demoOpenRun 2).s1 = [false, false] := by
   decide +kernel
 
+/-- a flip-flop WITHOUT output pin list has no (P)PI slot: `s_to_c` skips it (`pippi` lists position 0 only), `c_to_s` and
+    `s_ppo_to_ppi` still capture and move its state (the table after fix 7a998c8 of sim.py) -/
+def demoNoOut : Net :=
+  { nodes := #[⟨"input", [], [some 0]⟩, ⟨"__fork__", [some 0], [some 1]⟩, ⟨"DFF", [some 1], []⟩],
+    lines := #[⟨0, 0, 1, 0⟩, ⟨1, 0, 2, 0⟩], io := [0] }
+example : demoNoOut.wfB = true ∧ orderOKB demoNoOut [0, 1, 2] = true ∧ demoNoOut.sNodes = [0, 2] ∧
+    Cycle.tabsOf demoNoOut false = { ppi := 5, ppo := 7, pippi := [(0, 5)], poppo := [(1, 1)], ppio := [1] } ∧
+    (Cycle.cycleK (fun op => semL2n op.code) (Cycle.sigOps Gen.kindPrefixes demoNoOut [0, 1, 2] false)
+      (Cycle.tabsOf demoNoOut false) Cycle.mergeCopy false 1 ⟨fun _ => false, ⟨[true, false], [false, false]⟩⟩).s.s0 = [true, true] := by
+  decide +kernel
+
 /-- non-vacuity of (8), (8'): the REAL tables of `LogicSim(c_reuse=True)` for `demoSeq` and the REAL `topological_order()` -/
 def demoSeqMap : MapIn :=
   { net := demoSeq, strip := false,
@@ -397,7 +408,7 @@ def demoSeqMap : MapIn :=
     starts := [0, 2, 5, 6], locs := #[5, 7, 6, 8, 5, 6, 9, 0, 1, 2, 3, -1, 4, -1, 9, 6],
     caps := #[1, 1, 1, 1, 1, 1, 1, 1, 1, 1, 1, 0, 1, 0, 1, 1], cLen := 10, capsMin := 1 }
 example : demoSeqMap.ops = genOps Gen.kindPrefixes demoSeq [0, 2, 1, 3, 4, 6, 5] false ∧ demoSeqMap.check = none ∧
-    orderOKB demoSeq [0, 2, 1, 3, 4, 6, 5] = true ∧ Cycle.stateOutsB demoSeq = true ∧ Cycle.zeroCapB demoSeqMap = true := by
+    orderOKB demoSeq [0, 2, 1, 3, 4, 6, 5] = true ∧ Cycle.zeroCapB demoSeqMap = true := by
   decide +kernel
 
 open KV.Cycle in
